@@ -185,6 +185,10 @@ func factsProxy() {
 	rw = append(rw, prefixed("lazy:", stmtsContaining(body(fn(pmg, "", "newLazyRespSet")), "NewWarnSeriesResponse(rerr)"))...)
 	rw = append(rw, prefixed("eager:", stmtsContaining(body(fn(pmg, "", "newEagerRespSet")), "NewWarnSeriesResponse(rerr)"))...)
 	emitList("recvErrorToWarning", "pkg/store/proxy_merge.go: what both receivers do with a failing Recv", rw)
+	var ee []string
+	ee = append(ee, prefixed("lazy:", ifConds(body(fn(pmg, "", "newLazyRespSet")), "EOF"))...)
+	ee = append(ee, prefixed("eager:", ifConds(body(fn(pmg, "", "newEagerRespSet")), "EOF"))...)
+	emitList("recvEndOfStreamTests", "pkg/store/proxy_merge.go: every test of a Recv error against io.EOF in both receivers (the stream-end predicate)", ee)
 
 	// ---- C06 at the querier: every successful return of selectFn carries the collected warnings
 	qf := parse("pkg/query/querier.go")
